@@ -548,3 +548,32 @@ func ruleSupportCurrentPage(p *Prog, l *Ledger, tier string) {
 	}
 	l.Prove(rule, "teletextPageBuffer", rule, "", fmt.Sprintf("%d store(s) to currentPage all non-nil; %d store(s) receiving=true each paired with a currentPage store", nCur, nRecv))
 }
+
+// ruleNilDerefIn: E1 restricted to the named functions (used by transformation properties).
+func ruleNilDerefIn(names ...string) func(p *Prog, l *Ledger, tier string) {
+	return func(p *Prog, l *Ledger, tier string) {
+		const rule = "E1.nilderef"
+		a := NewNilAnalysis(p)
+		n := 0
+		for _, name := range names {
+			fn := anchor(p, l, rule, name)
+			if fn == nil {
+				continue
+			}
+			for _, ds := range derefSites(fn, p) {
+				if constructorNonNil(ds.op) {
+					continue
+				}
+				n++
+				key := l.Key(rule, name, ds.kind, descOf(ds.op))
+				pos := p.Pos(ds.ins.Pos())
+				if a.nonNil(fn, ds.op, a.at[ds.ins]) {
+					l.Prove(rule, name, key, pos, "non-nil by dominating test / construction / call-site join")
+				} else {
+					l.Fail(rule, name, key, pos, fmt.Sprintf("%s: %s of %s (%s) is not preceded by a nil test on every path; nilable source: %s", name, derefVerb(ds.kind), descOf(ds.op), typeStr(ds.op.Type()), nilSource(ds.op)))
+				}
+			}
+		}
+		l.Min(rule, n, 1)
+	}
+}
